@@ -105,4 +105,60 @@ theorem C04_decide_within_table (limit : Int) (tab : List Directive) (count : Na
 example : Strategy.decide { limit := 3, table := [.restart, .resume, .stop] } 2 = .resume ∧
           Strategy.decide { limit := 3, table := [.restart, .resume, .stop] } 7 = .stop := by decide
 
+/-- **Resume continues with the same instance and the queued messages**: when the supervisor's
+decision for a registered victim is `Resume`, the victim's mailbox is open again afterwards and has a
+runner, and its incarnation, status and both queues are untouched -/
+theorem C04_resume_unsuspends (w : World) (self victim : Aid) (st : Strategy)
+    (hd : st.decide (actorAt w victim).accidents = .resume) (hlive : isLive w victim = true) :
+    let w' := (((decide self victim st).run).run w).2
+    (actorAt w' victim).suspended = false ∧ (actorAt w' victim).hasRunner = true ∧
+    (actorAt w' victim).userQ = (actorAt w victim).userQ ∧ (actorAt w' victim).sysQ = (actorAt w victim).sysQ ∧
+    (actorAt w' victim).inc = (actorAt w victim).inc ∧ (actorAt w' victim).status = (actorAt w victim).status := by
+  have := run_of_triple (MV.Model.ActorSys.decide self victim st) (fun x => x = w) _ _ (decide_resume self victim st w hd hlive) w rfl
+  intro w'
+  have hw' : w' = (((MV.Model.ActorSys.decide self victim st).run).run w).2 := rfl
+  revert this hw'
+  generalize ((MV.Model.ActorSys.decide self victim st).run).run w = r
+  obtain ⟨e, w''⟩ := r
+  intro h hw'
+  cases e <;> simp at h hw' <;> simp [hw', h]
+
+/-- non-vacuity: a suspended registered victim whose strategy says Resume -/
+example : ∃ (w : World) (st : Strategy), st.decide (actorAt w 2).accidents = .resume ∧ isLive w 2 = true ∧
+    (actorAt w 2).suspended = true :=
+  ⟨{ actors := [default, default, { (default : Actor) with suspended := true, accidents := 1 }] },
+   { limit := -1, table := [.resume] }, by decide⟩
+
+/-- **Escalate passes the decision to the next ancestor**: when the deciding actor `self` answers
+`Escalate`, the accident of `victim` is appended to the system queue of `self`'s parent (sender
+`self`), and no other actor's state changes -/
+theorem C04_escalate_goes_to_next_ancestor (w : World) (self victim p : Aid) (st : Strategy)
+    (hd : st.decide (actorAt w victim).accidents = .escalate)
+    (hp : (actorAt w self).parent = some p) (hlive : isLive w p = true) :
+    let w' := (((MV.Model.ActorSys.decide self victim st).run).run w).2
+    (actorAt w' p).sysQ = (actorAt w p).sysQ ++ [(.accident victim, some self)] ∧
+    ∀ b, b ≠ p → actorAt w' b = actorAt w b := by
+  have := run_of_triple (MV.Model.ActorSys.decide self victim st) (fun x => x = w) _ _
+    (decide_escalate self victim p st w hd hp hlive) w rfl
+  intro w'
+  have hw' : w' = (((MV.Model.ActorSys.decide self victim st).run).run w).2 := rfl
+  revert this hw'
+  generalize ((MV.Model.ActorSys.decide self victim st).run).run w = r
+  obtain ⟨e, w''⟩ := r
+  intro h hw'
+  cases e <;> simp at h hw' <;> (subst hw'; exact ⟨h.1, fun b hb => h.2 b hb⟩)
+
+/-- the judge's clause agrees: an Escalate by 3 (child of 2) followed by a decision of 2 is accepted,
+a second decision by 3 itself is rejected -/
+example : c04escalate [.spawned 0 2, .spawned 2 3, .spawned 3 4, .failed 4,
+    .decided 3 4 .escalate 1, .decided 2 4 .resume 1] = none ∧
+  (c04escalate [.spawned 0 2, .spawned 2 3, .spawned 3 4, .failed 4,
+    .decided 3 4 .escalate 1, .decided 3 4 .escalate 1]).isSome = true := by decide
+
+/-- … and `c04stuck` rejects exactly the resumed-but-never-continuing victim -/
+example : c04stuck [.failed 4, .decided 3 4 .resume 1] [4] =
+    some "c04:resumed-actor-4-never-continues-with-its-queued-messages" ∧
+  c04stuck [.failed 4, .decided 3 4 .resume 1, .failed 4] [4] = none ∧
+  c04stuck [.failed 4] [4] = none := by decide
+
 end MV.Props.C04
